@@ -949,3 +949,7 @@ TECHNIQUE = "symbolic execution of rustc MIR -> integer-theory SMT (cvc5 + z3), 
 BOUNDS = dict(BOUNDS, m5_m7="one call from an arbitrary state (closure bodies executed with their captures as symbols)", m6="one operation on one key from an arbitrary two-tier state (key in memory / backend / both / neither); inductive step")
 LEVEL_TEXT = LEVEL_TEXT + " Also decided: m5 the main-chain shortcut of get_ancestor reads is_main_chain / tip_number / get_block_hash from ONE captured snapshot and is guarded by `not above tip and on chain`; m6 the header map's memory+backend tiers refine a plain map for contains_key/get/insert/remove and limit_memory moves exactly what it spilled; m7 a timed-out traced in-flight request is released on both sides (state table and the peer's own set) whether or not the peer is punished."
 LEVEL_NOTE = "Claim = skip-list ancestor lookup incl. snapshot-consistent shortcut, locator schedule, header-map tier composition (kernel), in-flight trace timeout step. Orphan pool, the rest of the in-flight table, MemoryMap/sled containers: outside."
+
+# ---- extended claim (session 4)
+LEVEL_TEXT = LEVEL_TEXT + ' m8: the orphan pool (insert / get_block / release by parent) for every parent relation over <= 3 (thorough 4) blocks with symbolic hashes; m9: the in-flight table (requests, arrival of a block, departure of a peer) for every coincidence of <= 2 (thorough 3) symbolic peers and blocks.'
+LEVEL_NOTE = LEVEL_NOTE + ' Orphan pool and in-flight table: bounded number of operations from the empty state, containers modelled as association lists with symbolic keys.'
